@@ -1,5 +1,6 @@
 mod auth;
 mod codec;
+mod config;
 mod distro;
 mod sequence;
 mod util;
@@ -12,6 +13,7 @@ fn main() {
     match model {
         "codec" => codec::run(),
         "distro" => distro::run(),
+        "config" => config::run(),
         "openapi" | "console" | "perm" => auth::run(model),
         "sequence" => sequence::run(),
         _ => {
